@@ -10,14 +10,24 @@ NOTE = ("trusted base: Go toolchain 1.25 race detector/checkptr, the harness und
         "silent on the unchanged tree at several seeds and firing on seeded breaks, see DESIGN.md), hooks behind -tags verif")
 # id -> (technique, text, design section, extra note)
 CLAIMS = {
+ 'C01': ('offline provenance checker over a recorded event log (unique values + one logical clock) from free-running stress with delay injection at hook points; forced primary-hash collision classes via Config.KeyToHash; race-detector build',
+         'Exploration: every value returned by Get/IterValues in every episode is traced to the Set that supplied it (same key, call began before the Get returned); key types string, []byte, named string and the integer kinds; collision classes put different keys in the same shard slot.', '5/C01'),
+ 'C03': ('quiescent-point assertion monitor (white-box snapshot under the cache\'s own locks vs RemainingCost/MaxCost), shadow accounting with fixed per-key costs, concurrent RemainingCost sampler; race-detector build',
+         'Exploration: used == sum of accounted costs, RemainingCost() == MaxCost - used, accounted cost of every key == its fixed cost (+ internal overhead), RemainingCost() >= 0 at drained points and in a concurrent sampler in histories without cost-raising overwrites; cost sources explicit / Config.Cost / internal cost on and off, UpdateMaxCost raises.', '5/C03'),
+ 'C04': ('offline per-value life-cycle automaton over a recorded event log (issued -> accepted|refused -> (evict|reject)? -> exit) from free-running stress with delay injection; race-detector build',
+         'Exploration: every accepted value exits exactly once by the return of the next Clear/Close called after its Set returned, refused values reach no callback, OnEvict/OnReject at most once and followed by OnExit, no hit after exit; write-buffer sizes 1..32768, all capacities, TTLs, ShouldUpdate refusals, concurrent Clear.', '5/C04'),
  'C10': ('differential reference-model monitor (map[uint64]uint64) over generated Set/DeleteBelow/IterateKV-rewrite/Reset histories, six page sizes, checkptr build',
          'Exploration: after every operation the touched keys, and periodically every key ever used plus the IterateKV multiset, are compared with a reference map; thresholds are tied to existing values so that leaf maxima are hit; histories cross node splits, page recycling and growth of the 1 MiB buffer.', '5/C10'),
  'C11': ('differential reference-model monitor ([]byte / [][]byte) over the four buffer kinds, sortedness + permutation oracle for the sorter, checkptr build',
          'Exploration: generated raw-mode and slice-mode sequences (sizes around capacity, growth, calloc->mmap switch, max size, slice counts around the 1024 chunking, five comparison functions); every operation is followed by a comparison of Bytes()/SliceOffsets/Slice/SliceIterate with the reference.', '5/C11'),
  'C12': ('address-interval disjointness + fill-pattern re-read + alignment/zero/copy assertions + sequential replay after Reset + per-call watchdog; Go race detector as second oracle (vwork.race), bulk sizes under checkptr (vwork.ptr)',
          'Exploration: epochs of 1..64 goroutines allocating sizes that straddle chunk boundaries on one allocator, with Reset and TrimTo;Reset between epochs; all handed-out intervals are sorted and checked for overlap and every pattern is re-read. TrimTo is only issued immediately before Reset (the AllocatorPool protocol): using an allocator after TrimTo without Reset hands out freed memory by construction and is outside the statement.', '5/C12'),
+ 'C13': ('quiescent-point assertion monitor: white-box snapshot invariants (policy key set == map key set, used == sum) and IterValues multiset vs snapshot; empty-cache clause after delete-all / clear / expire-and-sweep; race-detector build',
+         'Exploration: at every barrier (clients parked, Wait, applier paused by its own stop/done handshake) the snapshot taken under the cache\'s own locks must satisfy I1/I2 and IterValues must yield exactly the unexpired resident values once and stop when asked.', '5/C13'),
  'C16': ('C10 differential monitor carried across clean close + reopen of a persistent tree, Stats equality, recycled-page reuse assertion, checkptr build',
          'Exploration: Set/DeleteBelow histories on a file-backed tree, closed and reopened at random points, right after DeleteBelow recycled pages, at page-count boundaries of the mapped file, right after creation and at the end; contents, Stats (all but Allocated) and subsequent behaviour are compared with the reference.', '5/C16'),
+ 'C17': ('quiescent-point conservation checker: Metrics counters vs harness-side per-goroutine counters and the white-box snapshot; race-detector build',
+         'Exploration: the five laws of the statement are evaluated at every barrier of stress episodes with metrics on (evictions, cost-raising and -lowering overwrites, expiries, rejections, buffer-full drops); Clear only at barriers so that "since the last Clear" is well defined; GetsKept+GetsDropped is compared with Gets since creation (Get batches parked in ring stripes survive Clear).', '5/C17'),
  'C18': ('reference-model monitor (exact per-counter model of the count-min rows, white-box via verif accessors) + exhaustive byte-level enumeration, checkptr build',
          'Exploration: every 4-bit counter of the real sketch is compared with an exact model after every operation over generated sequences and table sizes; the byte-level sub-space (256 values x nibble) is enumerated completely. Holds on the sequences observed; right level because the property is a pure-function contract over an unbounded input space.', '5/C18'),
  'C19': ('reference-set monitor with structured probe hashes and JSON round-trip differential, checkptr build',
